@@ -418,7 +418,7 @@ func transfer(input OmegaInput) (output OmegaOutput) {
 	}
 	// m
 	rawData := input.VM.Memory.Read(o, types.TransferMemoSize)
-	if accountD, accountExists := input.Addition.ResultContextX.PartialState.ServiceAccounts[types.ServiceID(d)]; !accountExists {
+	if accountD, accountExists := accountByRegister(input.Addition.ResultContextX.PartialState.ServiceAccounts, d); !accountExists {
 		// not exist
 		input.VM.Registers[7] = WHO
 		return OmegaOutput{
@@ -498,8 +498,8 @@ func eject(input OmegaInput) (output OmegaOutput) {
 
 	serviceID := input.Addition.ResultContextX.ServiceID
 
-	accountD, accountExists := input.Addition.ResultContextX.PartialState.ServiceAccounts[types.ServiceID(d)]
-	if !(types.ServiceID(d) != serviceID && accountExists) {
+	accountD, accountExists := accountByRegister(input.Addition.ResultContextX.PartialState.ServiceAccounts, d)
+	if !(d != uint64(serviceID) && accountExists) {
 		// bold{d} = panic => CONTINUE, WHO
 		input.VM.Registers[7] = WHO
 		return OmegaOutput{
@@ -887,15 +887,14 @@ func provide(input OmegaInput) (output OmegaOutput) {
 	i := input.VM.Memory.Read(o, z)
 
 	// s = x_s or s = omega_7
-	var s types.ServiceID
-	if input.VM.Registers[7] == 0xffffffffffffffff {
-		s = input.Addition.ResultContextX.ServiceID
-	} else {
-		s = types.ServiceID(input.VM.Registers[7])
+	sStar := input.VM.Registers[7]
+	if sStar == 0xffffffffffffffff {
+		sStar = uint64(input.Addition.ResultContextX.ServiceID)
 	}
 
-	// a = d[s*] or nil,  d = (x_u)_d
-	account, accountExists := input.Addition.ResultContextX.PartialState.ServiceAccounts[s]
+	// a = d[s*] or nil,  d = (x_u)_d  (a register value >= 2^32 names no service)
+	account, accountExists := accountByRegister(input.Addition.ResultContextX.PartialState.ServiceAccounts, sStar)
+	s := types.ServiceID(sStar)
 	if !accountExists {
 		// otherwise if a = nil
 		input.VM.Registers[7] = WHO
